@@ -313,6 +313,31 @@ def bounded_repeated_divs(ctx, b):
         b.guard(("repeated_divs", name), one, sample={"divs": name})
 
 
+def bounded_sami_independence(ctx, b):
+    """what a SAMI document says in one language is read the same whatever the other languages say: a language that
+    stops early, starts late or has syncs of its own between the other's - each compared with the document that holds
+    its paragraphs only (starts, ends, texts)"""
+    head = ('<SAMI><HEAD><STYLE TYPE="text/css"><!-- .ENCC {Name: English; lang: en-US;} .FRCC {Name: French; lang: fr-FR;} '
+            '--></STYLE></HEAD><BODY>%s</BODY></SAMI>')
+    shapes = {"en stops early": [(0, "en", "Hello"), (1000, "en", "Bye"), (6000, "fr", "Salut"), (12000, "fr", "Fin")],
+              "fr starts late and ends early": [(0, "en", "a"), (2000, "fr", "x"), (3000, "fr", "y"), (9000, "en", "b"), (15000, "en", "c")],
+              "interleaved": [(0, "en", "a"), (500, "fr", "x"), (1000, "en", "b"), (1500, "fr", "y"), (7000, "fr", "z")]}
+    cls = {"en": "ENCC", "fr": "FRCC"}
+    code = {"en": "en-US", "fr": "fr-FR"}
+    for name, syncs in shapes.items():
+        def one(syncs=syncs):
+            doc = lambda keep: head % "".join(f'<SYNC start="{t}"><P class="{cls[l]}">{x}</P></SYNC>' for t, l, x in syncs if l in keep)
+            both = SAMIReader().read(doc(("en", "fr")))
+            for l in ("en", "fr"):
+                alone = SAMIReader().read(doc((l,)))
+                a = [(c_.start, c_.end, c_.get_text()) for c_ in both.get_captions(code[l])]
+                b_ = [(c_.start, c_.end, c_.get_text()) for c_ in alone.get_captions(code[l])]
+                if a != b_:
+                    return False, {"language": code[l], "read_next_to_the_other_language": a, "read_alone": b_}
+            return True, None
+        b.guard(("sami_independence", name), one, sample={"syncs": name})
+
+
 def bounded_inline_lang(ctx, b):
     """SAMI paragraphs that name their language themselves (lang= on the P element, no class)"""
     for codes in (("en", "fr"), ("fr", "en"), ("en-US", "fr-FR"), ("en-US", "en-GB"), ("en", "en-GB")):
@@ -352,6 +377,9 @@ def run(ctx):
     ctx.bounded("repeated_divs", "DFXP documents in which a language has several divs (another language between them, a div that "
                 "inherits the document language): languages in order of first appearance, each with all its cues in order",
                 lambda b: bounded_repeated_divs(ctx, b))
+    ctx.bounded("sami_independence", "two-language SAMI documents in which one language stops early, starts late or has syncs of its own "
+                "between the other's: each language reads exactly as from the document that holds its paragraphs only",
+                lambda b: bounded_sami_independence(ctx, b))
     ctx.bounded("inline_lang", "SAMI documents whose paragraphs carry lang= themselves, for five pairs of codes (two of them sharing "
                 "their primary subtag): one cue list per language, none shared", lambda b: bounded_inline_lang(ctx, b))
     ctx.bounded("multi_language", "caption sets with 1-4 languages, cues sorted and non-overlapping within a language, with "
